@@ -39,6 +39,7 @@ ORIGINS = {
     "R_C15_cache_key": ("C15", "reverse of fix afea519 (original defect)", "requests differing only in levels / grid size / analytic / background; default halo"),
     "R_C15_crash_safety": ("C15", "reverse of fix 49c2729 (original defect)", "truncated cache file; interrupted write"),
     "R_C16_ntimesteps": ("C16", "reverse of fix 1c8bcdc (original defect)", "series only in mol / wind_dir; scalar forcing with timestamps"),
+    "R_C20_int_base_field": ("C20", "reverse of fix 917a897 (original defect)", "integer-typed base field g"),
     "R_C19_int_dtype": ("C19", "reverse of fix 72725ef (original defect)", "integer-typed measurement height"),
 }
 
